@@ -505,19 +505,43 @@ class BuildLock:
         self.f.close()
 
 
-def prepare(ck, need_driver=True):
+DEFAULT_COQ_TARGETS = ("theories/Replay.vo", "theories/Discipline.vo", "theories/FdBalance.vo")
+
+# T0 facts that matter to a few properties only (label fragment -> properties); every other
+# fact is part of the syscall-level model and matters to all properties that use the model
+T0_SCOPE = [("error id range", {"C16"}), ("ErrorKind::errno", {"C16", "C17"}), ("errno arm", {"C16", "C17"}),
+            ("OsError arm", {"C16", "C17"}), ("mknod", {"C14", "C17"}), ("PATHRS_PROC", {"C17", "C18"}),
+            ("mkdir_all mode masks", {"C12", "C17"})]
+MODEL_FREE = {"C16", "C18"}
+
+
+def t0_relevant(msg, prop):
+    for frag, props in T0_SCOPE:
+        if frag in msg:
+            return prop in props
+    return prop not in MODEL_FREE
+
+
+def prepare(ck, need_driver=True, coq_targets=None):
     """T0 + Coq build + props/<id>.v + driver build.  Failures are recorded on
     the check (proof_broken / build_broken), not raised."""
     with BuildLock():
         t = time.time()
         ok, msg = t0_extract()
         ck.notes.append(msg)
-        if not ok:
+        if not ok and t0_relevant(msg, ck.prop):
             ck.proof_broken.append("T0 extraction: " + msg)
+        elif not ok:
+            ck.notes.append("T0 fact not relevant to %s; previous Consts.v kept" % ck.prop)
+        if ck.prop == "C18":
+            rc, out = sh([sys.executable, os.path.join(VERIF, "tools", "abi_extract.py")], timeout=1500)
+            if rc != 0:
+                ck.proof_broken.append("ABI extraction: " + out.strip()[-600:])
         bad = forbidden_scan()
         if bad:
             ck.proof_broken.append("forbidden vernacular: " + ", ".join(bad[:5]))
-        okc, out = coq_make([])
+        # only what this property needs is (re)built: a broken proof of another property must not alarm this one
+        okc, out = coq_make(list(coq_targets or DEFAULT_COQ_TARGETS))
         if not okc:
             ck.proof_broken.append("coq build: " + tail_err(out))
         res = check_props(ck.prop) if os.path.exists(os.path.join(COQ, "props", ck.prop + ".v")) else None
